@@ -11,18 +11,32 @@ Definition SE3_ominus := vec_of SE3_sub__SE3.
 Definition SE3_oplus_point := vec_of SE3_add__R3.
 Definition SE3_inv := vec_of SE3_inverse.
 
+Lemma SE3_oplus_wrt_self_tan : tangent_ok SE3_oplus (mat_of SE3_jacobian_self_oplus_other_wrt_self__SE3) 14 0 7.
+Proof. tan_ring. Qed.
 Lemma SE3_oplus_wrt_self : is_jacobian SE3_oplus (mat_of SE3_jacobian_self_oplus_other_wrt_self__SE3) 14 0 7.
 Proof. jac_poly. Qed.
+Lemma SE3_oplus_wrt_other_tan : tangent_ok SE3_oplus (mat_of SE3_jacobian_self_oplus_other_wrt_other__SE3) 14 7 7.
+Proof. tan_ring. Qed.
 Lemma SE3_oplus_wrt_other : is_jacobian SE3_oplus (mat_of SE3_jacobian_self_oplus_other_wrt_other__SE3) 14 7 7.
 Proof. jac_poly. Qed.
+Lemma SE3_ominus_wrt_self_tan : tangent_ok SE3_ominus (mat_of SE3_jacobian_self_ominus_other_wrt_self__SE3) 14 0 7.
+Proof. tan_ring. Qed.
 Lemma SE3_ominus_wrt_self : is_jacobian SE3_ominus (mat_of SE3_jacobian_self_ominus_other_wrt_self__SE3) 14 0 7.
 Proof. jac_poly. Qed.
+Lemma SE3_ominus_wrt_other_tan : tangent_ok SE3_ominus (mat_of SE3_jacobian_self_ominus_other_wrt_other__SE3) 14 7 7.
+Proof. tan_ring. Qed.
 Lemma SE3_ominus_wrt_other : is_jacobian SE3_ominus (mat_of SE3_jacobian_self_ominus_other_wrt_other__SE3) 14 7 7.
 Proof. jac_poly. Qed.
+Lemma SE3_point_wrt_self_tan : tangent_ok SE3_oplus_point (mat_of SE3_jacobian_self_oplus_point_wrt_self__R3) 10 0 7.
+Proof. tan_ring. Qed.
 Lemma SE3_point_wrt_self : is_jacobian SE3_oplus_point (mat_of SE3_jacobian_self_oplus_point_wrt_self__R3) 10 0 7.
 Proof. jac_poly. Qed.
+Lemma SE3_point_wrt_point_tan : tangent_ok SE3_oplus_point (mat_of SE3_jacobian_self_oplus_point_wrt_point__R3) 10 7 3.
+Proof. tan_ring. Qed.
 Lemma SE3_point_wrt_point : is_jacobian SE3_oplus_point (mat_of SE3_jacobian_self_oplus_point_wrt_point__R3) 10 7 3.
 Proof. jac_poly. Qed.
+Lemma SE3_inverse_jac_tan : tangent_ok SE3_inv (mat_of SE3_jacobian_inverse) 7 0 7.
+Proof. tan_ring. Qed.
 Lemma SE3_inverse_jac : is_jacobian SE3_inv (mat_of SE3_jacobian_inverse) 7 0 7.
 Proof. jac_poly. Qed.
 
